@@ -78,6 +78,7 @@ type qcParams struct {
 	qf     qfKind
 	cancel error // nil: no cancel event
 	pre    bool  // context ended before the call is issued
+	hold   int   // the hold-th quorum-function invocation is slow: it blocks until every remaining answer has arrived
 }
 
 func (p qcParams) name() string {
@@ -92,7 +93,11 @@ func (p qcParams) name() string {
 			c = "pre-" + c
 		}
 	}
-	return fmt.Sprintf("qc/%s/%s/%s/cancel=%s", p.kind, strings.Join(bs, ","), p.qf.name, c)
+	h := ""
+	if p.hold > 0 {
+		h = fmt.Sprintf("/slow-qf@%d", p.hold)
+	}
+	return fmt.Sprintf("qc/%s/%s/%s/cancel=%s%s", p.kind, strings.Join(bs, ","), p.qf.name, c, h)
 }
 
 func handlerError(node int) error {
@@ -131,7 +136,12 @@ func qcHistory(p qcParams) func() {
 				c.Skip = append(c.Skip, i+1)
 			}
 		}
-		c.Verdict = func(inv *world.QFInv) { inv.Quorum = p.qf.f(inv.Vals) }
+		c.Verdict = func(inv *world.QFInv) {
+			if p.hold > 0 && len(c.QF)+1 == p.hold {
+				w.Wait("qf-hold") // a slow quorum function: further answers queue up meanwhile
+			}
+			inv.Quorum = p.qf.f(inv.Vals)
+		}
 		async := world.IsAsync(p.kind)
 
 		// reference model
@@ -178,10 +188,13 @@ func qcHistory(p qcParams) func() {
 			}
 		}
 		hist := ""
+		held := false
 		for {
 			mc.Quiesce()
-			observe("after " + hist)
-			if done() || len(events) == 0 {
+			if !held {
+				observe("after " + hist)
+			}
+			if (done() && !held) || len(events) == 0 {
 				break
 			}
 			k := mc.Choose(len(events))
@@ -215,8 +228,18 @@ func qcHistory(p qcParams) func() {
 					quorum = true
 					quorumAt = len(snapshots) - 1
 				}
+				if p.hold > 0 && len(snapshots) == p.hold && (quorumAt < 0 || quorumAt >= p.hold-1) {
+					held = true // this reply starts the slow invocation; the rest arrives while it runs
+					hist += "["
+				}
 			}
 			w.Open(fmt.Sprintf("n%d", ev))
+		}
+		if held {
+			hist += "]"
+			w.Open("qf-hold")
+			mc.Quiesce()
+			observe("after " + hist)
 		}
 		mc.Outcome("hist=%s", hist)
 
@@ -447,6 +470,15 @@ func qcInstances(tier string) []Instance {
 							bound = 1
 						}
 						add(qcParams{kind: kind, behs: behs, qf: qf, cancel: cn.err, pre: cn.pre}, bound)
+						if cn.err == nil && n >= 2 && (kind == "QuorumCall" || kind == "QuorumCallAsync" || (thorough(tier) && full)) {
+							for hold := 1; hold < n; hold++ {
+								hb := 0
+								if thorough(tier) {
+									hb = 1
+								}
+								add(qcParams{kind: kind, behs: behs, qf: qf, hold: hold}, hb)
+							}
+						}
 					}
 				}
 			}
@@ -456,7 +488,7 @@ func qcInstances(tier string) []Instance {
 }
 
 func init() {
-	rule := "every history of one quorum call: n in 1..3 nodes x per-node behaviour {reply 0, reply 1, handler error, silent, skipped} x quorum function {threshold 1..n+1, two equal values, any value 1} x call variant (plain, per-node, custom return type, combo; sync and async) x cancel {none, Canceled, DeadlineExceeded, already ended}; the script delivers answers one at a time at quiescent points in every order (free choices) and every schedule within the deviation bound is explored inside each step; an outcome is the pair (delivery history, result class)"
+	rule := "every history of one quorum call: n in 1..3 nodes x per-node behaviour {reply 0, reply 1, handler error, silent, skipped} x quorum function {threshold 1..n+1, two equal values, any value 1} x call variant (plain, per-node, custom return type, combo; sync and async) x cancel {none, Canceled, DeadlineExceeded, already ended} x slow quorum function {none, the 1st / 2nd invocation blocks while all remaining answers arrive and queue up}; the script delivers answers one at a time at quiescent points in every order (free choices) and every schedule within the deviation bound is explored inside each step; an outcome is the pair (delivery history, result class)"
 	assume := []string{
 		"transport is the fakegrpc model (ordered reliable frames per stream, window 2); Go primitives are the gomc shims",
 		"interleavings are explored up to the reported deviation bound from the non-preemptive round-robin schedule; free choices (arrival order, select ties) are exhaustive",
